@@ -35,13 +35,13 @@ Ints(S) == {RI(k) : k \in S}
 Half == <<1, 2>>
 HistsQuick ==
   All1(<<<<0, 2>>>>, Ints(-2..3) \cup {Half}) \cup All1(<<<<0, 2, 6>>>>, Ints(-2..3) \cup {Half})
-  \cup All1(<<<<0, 1, 4, 6>>>>, Ints({-1, 0, 2}))
+  \cup All1(<<<<0, 1, 4, 6>>>>, Ints({-1, 2}))
   \cup All2(<<<<0, 2, 6>>, <<0, 1, 4>>>>, Ints({-1, 2}))
   \cup All3(<<<<0, 2>>, <<0, 1, 4>>, <<2, 4, 8>>>>, Ints({0, 1}))
 HistsThorough ==
   All1(<<<<0, 2>>>>, Ints(-2..3) \cup {Half}) \cup All1(<<<<0, 2, 6>>>>, Ints(-2..3) \cup {Half})
-  \cup All1(<<<<0, 1, 4, 6>>>>, Ints(-2..3))
-  \cup All2(<<<<0, 2, 6>>, <<0, 1, 4>>>>, Ints({-2, -1, 0, 2}) \cup {Half}) \cup All2(<<<<0, 2>>, <<0, 1, 4, 6>>>>, Ints({-1, 0, 3}))
+  \cup All1(<<<<0, 1, 4, 6>>>>, Ints({-2, -1, 0, 3}))
+  \cup All2(<<<<0, 2, 6>>, <<0, 1, 4>>>>, Ints({-1, 0, 2}) \cup {Half}) \cup All2(<<<<0, 2>>, <<0, 1, 4, 6>>>>, Ints({-1, 0, 3}))
   \cup All3(<<<<0, 2>>, <<0, 1, 4>>, <<2, 4, 8>>>>, Ints({-1, 0, 1}) \cup {Half}) \cup All3(<<<<0, 2, 6>>, <<0, 1, 4>>, <<2, 4, 8>>>>, Ints({0, 1}))
 HistsExport ==
   All1(<<<<0, 2>>>>, Ints(-2..3) \cup {Half}) \cup All1(<<<<0, 2, 6>>>>, Ints({-2, -1, 0, 3}) \cup {Half})
